@@ -531,6 +531,13 @@ func bfs(r *core.Run, label string, al alpha, depth int) bfsStats {
 					s.ok = true
 					s.errOp = c.errOp
 					s.key = canonKey(c)
+					if (al.level == 7 || al.level == 8) && len(h2) >= 2 {
+						// this family follows up on the OPERATION (it is called again
+						// later), so two operations that happen to build the same heap
+						// are different states
+						hh := sha256.Sum256(append(s.key[:], []byte(h2[1].expr())...))
+						copy(s.key[:], hh[:16])
+					}
 					s.aliased = c.worlds[0].aliased()
 					oc := op.K + "/" + descs[p.s][p.o]
 					if c.errOp {
@@ -607,6 +614,12 @@ func enumerate(w *world, al alpha, hist []Op) []Op {
 		}
 		return alphabetSiblings(w)
 	}
+	if al.level == 7 || al.level == 8 {
+		if al.level == 7 {
+			return alphabetTwice(w, hist, 1, false)
+		}
+		return alphabetTwice(w, hist, 2, true)
+	}
 	if al.level == 5 || al.level == 6 {
 		if len(w.vars) >= al.maxVars {
 			return nil
@@ -639,6 +652,7 @@ func run(r *core.Run) {
 			{"noop-family", alpha{level: 3, maxVars: 6}, 4},
 			{"siblings-family", alpha{level: 4, maxVars: 6}, 4},
 			{"stored-identity-family", alpha{level: 6, maxVars: 6}, 5},
+			{"same-call-twice-family", alpha{level: 8, maxVars: 6}, 5},
 		}
 	} else {
 		passes = []pass{
@@ -647,6 +661,7 @@ func run(r *core.Run) {
 			{"noop-family", alpha{level: 3, maxVars: 6}, 3},
 			{"siblings-family", alpha{level: 4, maxVars: 6}, 3},
 			{"stored-identity-family", alpha{level: 5, maxVars: 6}, 4},
+			{"same-call-twice-family", alpha{level: 7, maxVars: 6}, 5},
 		}
 	}
 	r.Rule("a state is non-trivial when its heap contains sharing: two distinct live sequence values whose windows onto one backing " +
@@ -672,6 +687,10 @@ func run(r *core.Run) {
 		"function, assoc/assoc! as value, sorted-map, zip inputs, map identity, select, reject, reverse, slice/cdr/rest views, stable-sort with predicate and key) is the very same " +
 		"object afterwards: the stored-identity-family pass stores a sorted-map, a list, a vector and a byte string, mutates it in place through the original reference and " +
 		"re-reads it through the container, and takes it out of the container (nth/aref/first/second/get), mutates it and re-reads the original; quick ends a history after its first in-place operation")
+	r.Assume("two results of the SAME non-mutating call on the same operand (keys, reverse, map, select, reject, concat, append with and without values, slices, cdr/rest, " +
+		"zip, insert-index, insert-sorted, assoc/dissoc results, append-bytes, make-sequence, ...) are independent fresh values unless documented as views: the " +
+		"same-call-twice-family pass calls the operation twice, applies every in-place operation (both sort directions; keys-style lists are sorted by name with " +
+		"string< / string> over to-string) to one result, re-inspects the other and calls the operation a third time, which must still answer what the model says")
 	r.Assume("strings are outside the alphabet (to-string/format-string of a string): elps strings are immutable, no in-place operation exists, so sharing is unobservable")
 	r.Assume("the canonical state also carries the IDENTITY of the real mutable object behind every container (cell holder, byte box, Go map), so a history whose " +
 		"'fresh' result is really its argument is never merged with an honest history that reaches the same model heap")
